@@ -28,6 +28,7 @@ RULE = ("(sequential) ALL operation sequences of length <= 5 (thorough: 6) over 
         "quiescence accesses are served from the cache (the last stored value) without running the getter. "
         "one evaluation = one history / one executed schedule; distinct = history or (scenario, trace)")
 RULE += (" Also: planned failures of every standard exception type (KeyError, AttributeError, ...), falsy exception instances, falsy property values (None, 0, False, '') in sequential histories; falsy lock objects.")
+RULE += (' Also: host instances are falsy and report len() == 0.')
 ASSUMPTIONS = ["awaiting a handle taken while a value was cached returns that value (unspecified after del; accepted)",
                "the getter's own suspensions are the only scheduling points besides lock waits"]
 EXHAUSTIVE_SUBSPACES = 'all operation sequences of length <= 5 (thorough: 6) over 7 operations; DFS-complete schedule sets for the scenarios counted in scenarios_explored_exhaustively'
@@ -100,7 +101,10 @@ def run_seq(case, stats):
         prop = A.cached_property(VLock)(getter)
     else:
         prop = A.cached_property(getter)
-    K = type("K", (), {"p": prop, "__init__": lambda self, tag: setattr(self, "tag", tag)})
+    # the instances are container-like and currently empty: they test false and have length zero (an instance is
+    # "absent" only when it IS None, i.e. on access through the class)
+    K = type("K", (), {"p": prop, "__init__": lambda self, tag: setattr(self, "tag", tag),
+                       "__bool__": lambda self: False, "__len__": lambda self: 0})
     prop.__set_name__(K, "p")
     inst = [K(0), K(1)]
     slot = ["absent", "absent"]  # "absent" | "placeholder" | ("value", v)
@@ -258,7 +262,7 @@ def execute(case, choose, cancel_at=None):
             state["active"] -= 1
 
     prop = A.cached_property(RegLock)(getter) if case["lock"] else A.cached_property(getter)
-    K = type("K", (), {"p": prop})
+    K = type("K", (), {"p": prop, "__bool__": lambda self: False, "__len__": lambda self: 0})
     prop.__set_name__(K, "p")
     inst = K()
     stored = inst.p if "stored" in case["awaiters"] else None
@@ -284,7 +288,9 @@ def execute(case, choose, cancel_at=None):
             pass
 
     driver = Driver(choose)
-    tasks = [driver.spawn(f"a{t}", awaiter(t, how), cancel_at=cancel_at if t == case.get("cancel_task") else None)
+    c2 = case.get("cancel2")  # a second awaiter cancelled as well (a task group going down): [task, at its k-th resume]
+    tasks = [driver.spawn(f"a{t}", awaiter(t, how),
+                          cancel_at=cancel_at if t == case.get("cancel_task") else c2[1] if c2 and t == c2[0] else None)
              for t, how in enumerate(case["awaiters"])]
     if case.get("deleter") is not None:
         driver.spawn("deleter", deleter(case["deleter"]))
